@@ -885,3 +885,196 @@ func (p *Prog) codecUnreachable(ct *CodecType) bool {
 	}
 	return true
 }
+
+// ---------------------------------------------------------------------------
+// X.build.cycle: building a codec terminates for every type. A struct that
+// contains itself is resolved by the overlay registry; a pointer, slice or map
+// type that contains itself without a struct in between (type L []L) is not,
+// so the builder must notice it is already building that type.
+
+func ruleBuildCycle(c *Ctx) {
+	p := c.P
+	name := "plenc.Plenc.CodecForTypeRegistry"
+	root := p.ssaFunc(name)
+	if root == nil {
+		c.Oblige("X.build.cycle", false, token.NoPos, name, "function", "not found", nil)
+		return
+	}
+	// the builder and the helpers of its package that it calls directly
+	funcs := []*ssa.Function{root}
+	seenF := map[*ssa.Function]bool{root: true}
+	for _, b := range root.Blocks {
+		for _, in := range b.Instrs {
+			if call, ok := in.(*ssa.Call); ok {
+				if cal := call.Common().StaticCallee(); cal != nil && cal.Pkg == root.Pkg && !seenF[cal] && len(cal.Blocks) > 0 && origin(cal) != origin(root) {
+					seenF[cal] = true
+					funcs = append(funcs, cal)
+				}
+			}
+		}
+	}
+	n := 0
+	for _, f := range funcs {
+		var regParam, typParam *ssa.Parameter
+		for _, prm := range f.Params {
+			if typeName(prm.Type()) == "CodecRegistry" && regParam == nil {
+				regParam = prm
+			}
+			if isReflectType(prm.Type()) && typParam == nil {
+				typParam = prm
+			}
+		}
+		if regParam == nil || typParam == nil {
+			continue
+		}
+		fname := ssaFuncName(f)
+		for _, b := range f.Blocks {
+			for _, in := range b.Instrs {
+				call, ok := in.(*ssa.Call)
+				if !ok {
+					continue
+				}
+				cal := call.Common().StaticCallee()
+				if cal == nil {
+					continue
+				}
+				isSelf := origin(cal) == origin(root)
+				isMap := cal.Name() == "BuildMapCodec"
+				if !isSelf && !isMap {
+					continue
+				}
+				var reg ssa.Value
+				for _, a := range call.Common().Args {
+					if typeName(a.Type()) == "CodecRegistry" {
+						reg = a
+					}
+				}
+				n++
+				// the registry handed down records what is being built: it is not the bare parameter
+				wrapped := reg != nil && reg != ssa.Value(regParam)
+				if phi, ok := reg.(*ssa.Phi); ok {
+					wrapped = false
+					for _, e := range phi.Edges {
+						if e != ssa.Value(regParam) {
+							wrapped = true
+						}
+					}
+				}
+				// and a test of "already building this type" that ends in an error dominates the call
+				guarded := false
+				for _, d := range f.Blocks {
+					if !(d == b || d.Dominates(b)) {
+						continue
+					}
+					ifi, ok := d.Instrs[len(d.Instrs)-1].(*ssa.If)
+					if !ok {
+						continue
+					}
+					tc, ok := ifi.Cond.(*ssa.Call)
+					if !ok {
+						continue
+					}
+					tcal := tc.Common().StaticCallee()
+					if tcal == nil || tcal.Pkg == nil || !inModule(tcal.Pkg.Pkg) {
+						continue
+					}
+					usesReg, usesTyp := false, false
+					for _, a := range tc.Common().Args {
+						if a == ssa.Value(regParam) {
+							usesReg = true
+						}
+						if a == ssa.Value(typParam) {
+							usesTyp = true
+						}
+					}
+					tb := d.Succs[0]
+					if ret, ok := tb.Instrs[len(tb.Instrs)-1].(*ssa.Return); ok && usesReg && usesTyp && isFailureReturnLoose(f, ret) {
+						guarded = true
+					}
+				}
+				what := "recursive lookup of a part type"
+				if isMap {
+					what = "descent into the map builder"
+				}
+				c.Oblige("X.build.cycle", wrapped && guarded, call.Pos(), fname, what+" records the type being built and is refused when it is already being built",
+					"asking for a codec never hangs or overflows the stack: type L []L, type P *P or type M map[string][]M contain themselves without a struct in between, so nothing ends the recursion unless the builder remembers which pointer/slice/map types it is in the middle of (fatal error: stack overflow otherwise)", nil)
+			}
+		}
+	}
+	c.Floor("X.build.cycle", 2)
+}
+
+// ---------------------------------------------------------------------------
+// X.skip.varint: Skip and ReadVarUint agree on what a varint is.
+
+func ruleSkipVarint(c *Ctx) {
+	name := "plenccore.Skip"
+	f := c.P.ssaFunc(name)
+	if f == nil {
+		c.Oblige("X.skip.varint", false, token.NoPos, name, "function", "not found", nil)
+		return
+	}
+	// the WTVarInt clause: blocks controlled by wt == WTVarInt (constant 0)
+	good := false
+	var pos token.Pos = f.Pos()
+	for _, b := range f.Blocks {
+		conds, truths := controllingConds(b)
+		inClause := false
+		for i, cd := range conds {
+			if bo, ok := cd.(*ssa.BinOp); ok && bo.Op == token.EQL && truths[i] {
+				for _, o := range []ssa.Value{bo.X, bo.Y} {
+					if k, ok := o.(*ssa.Const); ok && k.Value != nil && k.Value.ExactString() == "0" && typeName(k.Type()) == "WireType" {
+						inClause = true
+					}
+				}
+			}
+		}
+		if !inClause {
+			continue
+		}
+		ret, ok := b.Instrs[len(b.Instrs)-1].(*ssa.Return)
+		if !ok || isFailureReturnLoose(f, ret) {
+			continue
+		}
+		pos = ret.Pos()
+		if ex, ok := ret.Results[0].(*ssa.Extract); ok {
+			if call, ok := ex.Tuple.(*ssa.Call); ok {
+				if cal := call.Common().StaticCallee(); cal != nil && ssaFuncName(cal) == "plenccore.ReadVarUint" && ex.Index == 1 {
+					if prm, ok := call.Common().Args[0].(*ssa.Parameter); ok && isByteSlice(prm.Type()) {
+						good = true
+					}
+				}
+			}
+		}
+	}
+	c.Oblige("X.skip.varint", good, pos, name, "the length of a skipped varint is what ReadVarUint reports for it",
+		"Skip must accept exactly the varints the readers accept: a hand-written scan that only looks for the terminating byte accepts a 10-byte varint whose last byte overflows 64 bits (FF×9 02) and an 11-byte one, which ReadVarUint rejects - an unknown field is then skipped where the same bytes in a known field are an error", nil)
+	c.Floor("X.skip.varint", 1)
+}
+
+// ---------------------------------------------------------------------------
+// T.mapkey-plain: a map is rendered as a JSON object only when its key is a
+// plain string - not a pointer to one or a null.String, whose distinct keys
+// can have equal text.
+
+func ruleMapKeyPlain(c *Ctx) {
+	name := "plenccodec.Descriptor.isValidJSONMapEntry"
+	f := c.P.ssaFunc(name)
+	if f == nil {
+		c.Oblige("T.mapkey-plain", false, token.NoPos, name, "function", "not found", nil)
+		return
+	}
+	tests := false
+	for _, b := range f.Blocks {
+		for _, in := range b.Instrs {
+			if u, ok := in.(*ssa.UnOp); ok && u.Op == token.MUL {
+				if fa, ok := u.X.(*ssa.FieldAddr); ok && fieldName(fa) == "ExplicitPresence" {
+					tests = true
+				}
+			}
+		}
+	}
+	c.Oblige("T.mapkey-plain", tests, f.Pos(), name, "the object form is used only for keys without explicit presence",
+		"string-keyed maps are objects, other maps key/value lists: map[*string]T and map[null.String]T also have FieldTypeString keys, but two distinct keys can have the same text (two pointers to \"a\"; the invalid and the valid empty null.String), which gives an object with duplicate member names", nil)
+	c.Floor("T.mapkey-plain", 1)
+}
